@@ -551,6 +551,8 @@ Definition joins_wf (sch : list nat) (q : query) : bool := wf_query (arity_wfj s
      correlated           : MagicJoin LEFT (scalar) / LEFT MARK (EXISTS, IN) (MaterializationScan(input), sub')
    where sub' is the subquery's plan after the dependent-join push-down; the check compares sub' with the
    subquery's own plan modulo the push-down artefacts (see vlib/c01plan.py). *)
+Inductive subkind := SubScalar | SubExists | SubIn.
+
 Inductive skop :=
 | KScan (t : nat)
 | KSingleRow
@@ -568,11 +570,9 @@ Inductive skop :=
 | KLimit (lim : option nat) (off : nat)
 | KMatScan
 | KMarkJoin (nconds : nat)                  (* ComparisonJoin LEFT MARK of an uncorrelated IN *)
-| KMagicJoin (mark : bool).                 (* MagicJoin LEFT (mark = false) / LEFT MARK *)
+| KMagicJoin (kind : subkind).              (* MagicJoin LEFT (scalar) / LEFT MARK (EXISTS, IN) *)
 
 Inductive sk := Sk (op : skop) (children : list sk).
-
-Inductive subkind := SubScalar | SubExists | SubIn.
 
 (* does an expression / a plan refer to a row outside itself?  `m` = number of rows of the environment that
    belong to the expression / plan itself *)
@@ -649,7 +649,7 @@ Section Skel.
   Variable sch : list nat.
 
   Definition subq_node (kind : subkind) (corr : bool) (inp sub : sk) : sk :=
-    if corr then Sk (KMagicJoin (match kind with SubScalar => false | _ => true end)) [inp; sub]
+    if corr then Sk (KMagicJoin kind) [inp; sub]
     else match kind with
          | SubScalar => Sk KCrossJoin [inp; Sk (KAggregate 0 1) [sub]]
          | SubExists => Sk KCrossJoin [inp; Sk (KProject (Some 1)) [Sk (KAggregate 0 1) [Sk (KLimit (Some 1) 0) [sub]]]]
@@ -711,3 +711,461 @@ Fixpoint on_supported (e : expr) : bool :=
 
 (* the fragment compared with EXPLAIN: every ON condition is `on_supported` *)
 Definition plan_supported (q : query) : bool := wf_query (fun _ _ e _ _ => on_supported e) q.
+
+(* ================================================================ physical plans *)
+
+(* Transcribed from /repo/crates/glaredb_core/src/execution/planner/
+     plan_join.rs      : ComparisonJoin -> HashJoin when some condition has op `=` (enable_hash_joins), otherwise
+                         NestedLoopJoin with the conjunction of the conditions as filter; ArbitraryJoin ->
+                         NestedLoopJoin(filter); CrossJoin -> NestedLoopJoin(INNER, no filter)
+     plan_aggregate.rs : Project(group expressions ++ aggregate inputs) below, then HashAggregate when there are
+                         grouping sets, UngroupedAggregate otherwise
+     plan_distinct.rs  : HashAggregate grouping on every column, no aggregates
+     plan_set_operation.rs : Union [+ HashAggregate on every column when not ALL]
+     plan_sort.rs      : GlobalSort;  plan_limit.rs : Limit;  plan_filter.rs / plan_project.rs / plan_scan.rs
+   `exec_pplan` runs every operator through its operator model (model/HashJoin.v, NlJoin.v, AggTable.v + AggState.v,
+   LimitOp.v, Merge.v + SortSpec.v) on an ARBITRARY distribution of its input over partitions and batches. *)
+From GV Require Import model.SortKey model.SortSpec model.Merge model.LimitOp model.HashJoin model.NlJoin
+  model.AggState model.AggTable.
+Local Open Scope nat_scope.
+
+Inductive njcond :=
+| NCNone                                           (* cross product *)
+| NCWhole (e : pexpr)                              (* a filter over the concatenated row *)
+| NCConds (cs : list (jop * pexpr * pexpr)).       (* comparison conditions, one operand per side *)
+
+Inductive pplan :=
+| XScan (t : nat)
+| XSingleRow
+| XExprList (rows : list (list pexpr))
+| XFilter (p : pexpr) (c : pplan)
+| XProject (es : list pexpr) (c : pplan)
+| XProjectAll (c : pplan)
+| XNlJoin (k : nkind) (cond : njcond) (la ra : nat) (l r : pplan)
+| XHashJoin (k : hkind) (conds : list (cmpop * pexpr * pexpr)) (la ra : nat) (l r : pplan)
+| XHashAggregate (keys : list pexpr) (aggs : list (aggfn * bool * pexpr)) (c : pplan)
+| XUngroupedAggregate (aggs : list (aggfn * bool * pexpr)) (c : pplan)
+| XDistinct (c : pplan)
+| XUnion (l r : pplan)
+| XSort (keys : list (nat * bool * bool)) (c : pplan)
+| XLimit (lim off : nat) (c : pplan)
+| XMaterialize (c : pplan)
+| XUnsupported.                                    (* outside the fragment the composition theorem covers *)
+
+Definition nkind_of (k : jkind) : option nkind :=
+  match k with
+  | JCross | JInner => Some NInner | JLeft => Some NLeft | JRight => Some NRight | JSemi => Some NSemi
+  | JAnti => None
+  end.
+Definition hkind_of (k : jkind) : option hkind :=
+  match k with
+  | JCross | JInner => Some HInner | JLeft => Some HLeft | JRight => Some HRight | JSemi => Some HSemi
+  | JAnti => None
+  end.
+
+Definition cmp_conds (conds : list (jop * pexpr * pexpr)) : option (list (cmpop * pexpr * pexpr)) :=
+  fold_right (fun c acc => match c, acc with
+                           | (JOp op, a, b), Some l => Some ((op, a, b) :: l)
+                           | _, _ => None
+                           end) (Some []) conds.
+
+Fixpoint phys_of (p : lplan) : pplan :=
+  match p with
+  | LScan t => XScan t
+  | LSingleRow => XSingleRow
+  | LExprList rows => XExprList rows
+  | LFilter e c => XFilter e (phys_of c)
+  | LProject es c => XProject es (phys_of c)
+  | LProjectAll c => XProjectAll (phys_of c)
+  | LCrossJoin l r => XNlJoin NInner NCNone 0 0 (phys_of l) (phys_of r)
+  | LArbitraryJoin k cond la ra l r =>
+      match nkind_of k with
+      | Some nk => XNlJoin nk (NCWhole cond) la ra (phys_of l) (phys_of r)
+      | None => XUnsupported
+      end
+  | LComparisonJoin k conds la ra l r =>
+      if existsb (fun c => match c with (o, _, _) => jop_is_eq o end) conds then
+        match hkind_of k, cmp_conds conds with
+        | Some hk, Some cs => XHashJoin hk cs la ra (phys_of l) (phys_of r)
+        | _, _ => XUnsupported
+        end
+      else
+        match nkind_of k with
+        | Some nk => XNlJoin nk (NCConds conds) la ra (phys_of l) (phys_of r)
+        | None => XUnsupported
+        end
+  | LDependentJoin _ _ _ _ _ => XUnsupported
+  | LAggregate keys aggs c =>
+      if existsb (fun a => match a with (_, dis, _) => dis end) aggs then XUnsupported
+      else match keys with
+           | [] => XUngroupedAggregate aggs (phys_of c)
+           | _ => XHashAggregate keys aggs (phys_of c)
+           end
+  | LDistinct c => XDistinct (phys_of c)
+  | LSetop all l r => if all then XUnion (phys_of l) (phys_of r) else XDistinct (XUnion (phys_of l) (phys_of r))
+  | LOrder keys c => XSort keys (phys_of c)
+  | LLimit lim off c => match lim with Some n => XLimit n off (phys_of c) | None => XUnsupported end
+  | LMaterializationScan c => XMaterialize (phys_of c)
+  end.
+
+(* ---------------------------------------------------------------- typed columns *)
+
+Definition vkind (v : value) : nat := match v with VNull => 0 | VBool _ => 1 | VInt _ => 2 | VStr _ => 3 end.
+
+(* the arrays an aggregate is fed with are typed: one kind, 64-bit integers for SUM *)
+Definition agg_wt_b (f : aggfn) (vs : list value) : bool :=
+  match f with
+  | ACountStar | ACount => true
+  | ASum => forallb (fun v => match v with VNull => true | VInt x => in_range 64 x | _ => false end) vs
+  | AMin | AMax =>
+      match filter (fun v => negb (Nat.eqb (vkind v) 0)) vs with
+      | [] => true
+      | v0 :: _ => forallb (fun v => Nat.eqb (vkind v) 0 || Nat.eqb (vkind v) (vkind v0)) vs
+      end
+  | ABoolAnd | ABoolOr => forallb (fun v => match v with VNull | VBool _ => true | _ => false end) vs
+  end.
+
+(* ---------------------------------------------------------------- sort keys of Sql rows *)
+
+Definition enc_key (v : value) : kval :=
+  match v with
+  | VNull => KNull
+  | VBool b => KBits (if b then 1 else 0)%N
+  | VInt z => KBits (Z.to_N (z mod 2 ^ 64)%Z)
+  | VStr s => KBytes s
+  end.
+Definition kty_of_kind (k : nat) : kty :=
+  match k with 1 => KBool 1%N 0%N | 3 => KStr 0 | _ => KS 8 end.
+(* the kind of key column i: that of its first non-NULL value *)
+Definition col_kind (rows : list row) (i : nat) : nat :=
+  match filter (fun k => negb (Nat.eqb k 0)) (map (fun r => vkind (nth i r VNull)) rows) with
+  | [] => 2
+  | k :: _ => k
+  end.
+Definition sort_cols (rows : list row) (keys : list (nat * bool * bool)) : list kcol :=
+  map (fun k => match k with (i, desc, nf) => Build_kcol (kty_of_kind (col_kind rows i)) desc nf end) keys.
+Definition key_ok (kd : nat) (v : value) : bool :=
+  match v with
+  | VNull => true
+  | VInt z => Nat.eqb kd 2 && in_range 64 z
+  | _ => Nat.eqb (vkind v) kd
+  end.
+Definition sort_typed_b (rows : list row) (keys : list (nat * bool * bool)) : bool :=
+  forallb (fun k => match k with (i, _, _) =>
+             forallb (fun r => key_ok (col_kind rows i) (nth i r VNull)) rows end) keys.
+(* (sort keys, payload = position of the row in the operator's input) *)
+Definition srow_of (keys : list (nat * bool * bool)) (ir : nat * row) : srow :=
+  (map (fun k => match k with (i, _, _) => enc_key (nth i (snd ir) VNull) end) keys, [KBits (N.of_nat (fst ir))]).
+Definition row_of_srow (all : list row) (s : srow) : option row :=
+  match snd s with
+  | [KBits n] => nth_error all (N.to_nat n)
+  | _ => None
+  end.
+
+(* the rows of the partitions, numbered consecutively *)
+Fixpoint number_parts (start : nat) (ps : list (list row)) : list (list (nat * row)) :=
+  match ps with
+  | [] => []
+  | p :: ps' => combine (seq start (length p)) p :: number_parts (start + length p) ps'
+  end.
+
+Fixpoint mapM_o {A B} (f : A -> option B) (l : list A) : res (list B) :=
+  match l with
+  | [] => Ok []
+  | x :: l' => match f x with Some y => do ys <- mapM_o f l'; Ok (y :: ys) | None => Err EType end
+  end.
+
+(* ---------------------------------------------------------------- execution *)
+
+Section Exec.
+  (* the oracle: every choice the runtime makes.  `pth` = position of the operator in the plan. *)
+  Variable deal : list nat -> nat -> list row -> list (list (list row)).   (* rows -> partitions -> batches *)
+  Variable batching : list nat -> list row -> list (list row).             (* one ordered stream, cut in batches *)
+  Variable perm_b : list nat -> list bptr -> list bptr.                    (* hash join: directory insertion order *)
+  Variable perm_l : list nat -> list lptr -> list lptr.                    (* nested loop join: drain order *)
+  Variable hash : list value -> N.
+  Variable kbits : N.
+  Variable Pn : nat.                                                        (* hash join drain partitions *)
+  Variable hasha : row -> N.
+  Variables pout capacity chunk : nat.                                      (* hash aggregate: two-level scheme *)
+  Variable tree_of : list nat -> list (list srow) -> mtree.                 (* merge order of the sorted runs *)
+  Variable lsched : list nat -> list nat.                                   (* limit: lock order *)
+  Variable usched : list nat -> nat -> list uevent.                         (* union: per-partition schedule *)
+
+  Definition flat (parts : list (list (list row))) : list row := concat (concat parts).
+
+  Definition eval_conds (d : db) (en : env) (conds : list (jop * pexpr * pexpr)) (x y : row) : res bool :=
+    do bs <- mapM (fun c => match c with (o, a, b) =>
+                     do u <- eval_pexpr d (x :: en) a; do v <- eval_pexpr d (y :: en) b; jop_holds o u v end) conds;
+    Ok (all_true bs).
+
+  Definition nj_eval (d : db) (en : env) (c : njcond) (x y : row) : res bool :=
+    match c with
+    | NCNone => Ok true
+    | NCWhole e => do v <- eval_pexpr d ((x ++ y) :: en) e; collapse3 v
+    | NCConds cs => eval_conds d en cs x y
+    end.
+
+  (* the values of aggregate `i` for the group `k`, per input partition *)
+  Definition group_vals (pparts : list (list (list (row * row)))) (k : row) (i : nat) : list (list value) :=
+    map (fun part => map (fun it => nth i (snd it) VNull)
+                         (filter (fun it => row_same k (fst it)) (concat part))) pparts.
+  Definition agg_phys (f : aggfn) (parts : list (list value)) : res value :=
+    if agg_wt_b f (concat parts) then agg_parts f parts else Err EType.
+
+  Fixpoint indexed {A} (i : nat) (l : list A) : list (nat * A) :=
+    match l with [] => [] | x :: l' => (i, x) :: indexed (S i) l' end.
+
+  Fixpoint exec_pplan (pth : list nat) (d : db) (en : env) (p : pplan) {struct p} : res (list row) :=
+    match p with
+    | XScan t => match nth_error d t with Some rows => Ok rows | None => Err EType end
+    | XSingleRow => Ok [[]]
+    | XExprList rows => mapM (fun r => mapM (eval_pexpr d en) r) rows
+    | XFilter e c =>
+        do rows <- exec_pplan (0 :: pth) d en c;
+        rfilter (fun r => do v <- eval_pexpr d (r :: en) e; collapse3 v) (flat (deal pth 0 rows))
+    | XProject es c =>
+        do rows <- exec_pplan (0 :: pth) d en c;
+        rproject (fun r => mapM (eval_pexpr d (r :: en)) es) (flat (deal pth 0 rows))
+    | XProjectAll c => exec_pplan (0 :: pth) d en c
+    | XMaterialize c => exec_pplan (0 :: pth) d en c
+    | XNlJoin k cond la ra l r =>
+        do L <- exec_pplan (0 :: pth) d en l; do R <- exec_pplan (1 :: pth) d en r;
+        let Lp := deal pth 0 L in let Rp := deal pth 1 R in
+        (* the filter runs on every pair of the cross product *)
+        do _ <- mapM (fun x => mapM (fun y => nj_eval d en cond x y) (flat Rp)) (flat Lp);
+        Ok (nl_join (match cond with NCNone => None | _ => Some (fun x y => unres false (nj_eval d en cond x y)) end)
+                    k la ra Lp (perm_l pth (collected Lp)) Rp)
+    | XHashJoin k conds la ra l r =>
+        do L <- exec_pplan (0 :: pth) d en l; do R <- exec_pplan (1 :: pth) d en r;
+        let Lp := deal pth 0 L in let Rp := deal pth 1 R in
+        (* key columns of both sides *)
+        do _ <- mapM (fun x => mapM (fun c => match c with (_, a, _) => eval_pexpr d (x :: en) a end) conds) (flat Lp);
+        do _ <- mapM (fun y => mapM (fun c => match c with (_, _, b) => eval_pexpr d (y :: en) b end) conds) (flat Rp);
+        Ok (hash_join hash (map (fun c => match c with (op, _, _) => op end) conds)
+              (fun x => unres [] (mapM (fun c => match c with (_, a, _) => eval_pexpr d (x :: en) a end) conds))
+              (fun y => unres [] (mapM (fun c => match c with (_, _, b) => eval_pexpr d (y :: en) b end) conds))
+              kbits k la ra Pn Lp (perm_b pth (stored_rows Lp)) Rp)
+    | XHashAggregate keys aggs c =>
+        do rows <- exec_pplan (0 :: pth) d en c;
+        (* pre-projection: group expressions and aggregate inputs of every row *)
+        do pparts <- mapM (mapM (mapM (fun r =>
+                        do k <- mapM (eval_pexpr d (r :: en)) keys;
+                        do args <- mapM (fun a => match a with (_, _, arg) => eval_pexpr d (r :: en) arg end) aggs;
+                        Ok (k, args)))) (deal pth 0 rows);
+        match two_level hasha (list row) [] row (fun s v => s ++ [v]) (@app row) pout capacity chunk pparts with
+        | TErr _ => Err EType
+        | TOk outs =>
+            mapM (fun g =>
+                    do avs <- mapM (fun ia => match ia with (i, (fn, _, _)) => agg_phys fn (group_vals pparts (fst g) i) end)
+                                   (indexed 0 aggs);
+                    Ok (fst g ++ avs)) (concat (map groups outs))
+        end
+    | XUngroupedAggregate aggs c =>
+        do rows <- exec_pplan (0 :: pth) d en c;
+        do pparts <- mapM (mapM (mapM (fun r =>
+                        do args <- mapM (fun a => match a with (_, _, arg) => eval_pexpr d (r :: en) arg end) aggs;
+                        Ok (@nil value, args)))) (deal pth 0 rows);
+        do avs <- mapM (fun ia => match ia with (i, (fn, _, _)) => agg_phys fn (group_vals pparts [] i) end) (indexed 0 aggs);
+        Ok [avs]
+    | XDistinct c =>
+        do rows <- exec_pplan (0 :: pth) d en c;
+        match two_level hasha (list row) [] row (fun s v => s ++ [v]) (@app row) pout capacity chunk
+                        (map (map (map (fun r => (r, r)))) (deal pth 0 rows)) with
+        | TErr _ => Err EType
+        | TOk outs => Ok (map fst (concat (map groups outs)))
+        end
+    | XUnion l r =>
+        do L <- exec_pplan (0 :: pth) d en l; do R <- exec_pplan (1 :: pth) d en r;
+        let ls := map (@concat row) (deal pth 0 L) in let rs := map (@concat row) (deal pth 1 R) in
+        (* per partition: the left child is pushed into a one-slot buffer, the right child passes through *)
+        let runs := map (fun ip => union_run (usched pth (fst ip)) (union_init [fst (snd ip)] [snd (snd ip)]))
+                        (indexed 0 (combine ls rs)) in
+        if Nat.eqb (length ls) (length rs) && forallb (fun s => u_done s) runs
+        then Ok (concat (map union_output runs)) else Err EType
+    | XSort keys c =>
+        do rows <- exec_pplan (0 :: pth) d en c;
+        let parts := map (@concat row) (deal pth 0 rows) in
+        let all := concat parts in
+        if sort_typed_b all keys then
+          let cs := sort_cols all keys in
+          (* every partition sorts its rows; the runs are merged pairwise in the order the merge queue hands out *)
+          let numbered := number_parts 0 parts in
+          let runs := map (fun p => isort cs (map (srow_of keys) p)) numbered in
+          mapM_o (row_of_srow all) (merge_tree cs (tree_of pth runs))
+        else Err EType
+    | XLimit lim off c =>
+        do rows <- exec_pplan (0 :: pth) d en c;
+        (* the global sort emits one ordered stream; any other input arrives from all partitions *)
+        let bs := match c with
+                  | XSort _ _ => batching pth rows
+                  | _ => interleave (lsched pth) (deal pth 0 rows)
+                  end in
+        match limit_run (limit_init lim (Some off)) bs with
+        | Some (_, outs, _) => Ok (concat outs)
+        | None => Err EType
+        end
+    | XUnsupported => Err EType
+    end.
+End Exec.
+
+(* ---------------------------------------------------------------- physical skeletons *)
+
+Inductive pjk := PJ (k : jkind) | PJMark.
+
+Inductive pkop :=
+| QScan (t : nat)
+| QSingleRow
+| QExprList (nrows : nat)
+| QFilter
+| QProject (n : option nat)
+| QNlJoin (k : pjk) (has_filter : bool)
+| QHashJoin (k : pjk) (nconds : nat)
+| QHashAggregate (nkeys naggs : nat)
+| QUngroupedAggregate (naggs : nat)
+| QHashDistinct                              (* HashAggregate on every column, no aggregates *)
+| QUnionOp
+| QSort (nkeys : nat)
+| QLimit (lim : option nat) (off : nat)
+| QMaterialize
+| QUnsupported.
+
+Inductive psk := Psk (op : pkop) (children : list psk).
+
+(* the physical planner on skeletons (execution/planner/plan_*.rs, including the joins that stand for
+   subquery expressions) *)
+Fixpoint phys_sk (s : sk) : psk :=
+  match s with
+  | Sk op cs =>
+      let cs' := map phys_sk cs in
+      match op with
+      | KScan t => Psk (QScan t) cs'
+      | KSingleRow => Psk QSingleRow cs'
+      | KExprList n => Psk (QExprList n) cs'
+      | KFilter => Psk QFilter cs'
+      | KProject n => Psk (QProject n) cs'
+      | KCrossJoin => Psk (QNlJoin (PJ JInner) false) cs'
+      | KArbitraryJoin k => Psk (QNlJoin (PJ k) true) cs'
+      | KComparisonJoin k n has_eq =>
+          if has_eq then Psk (QHashJoin (PJ k) n) cs' else Psk (QNlJoin (PJ k) (negb (Nat.eqb n 0))) cs'
+      | KDependentJoin _ => Psk QUnsupported cs'
+      | KAggregate nk na =>
+          let pre := Psk (QProject (Some (nk + na))) cs' in
+          match nk with O => Psk (QUngroupedAggregate na) [pre] | _ => Psk (QHashAggregate nk na) [pre] end
+      | KDistinct => Psk QHashDistinct cs'
+      | KSetop all => if all then Psk QUnionOp cs' else Psk QHashDistinct [Psk QUnionOp cs']
+      | KOrder n => Psk (QSort n) cs'
+      | KLimit l o => Psk (QLimit l o) cs'
+      | KMatScan => Psk QMaterialize cs'
+      | KMarkJoin n => Psk (QHashJoin PJMark n) cs'
+      | KMagicJoin SubIn => Psk (QHashJoin PJMark 0) cs'             (* correlation conditions + one `=` *)
+      | KMagicJoin SubExists => Psk (QNlJoin PJMark true) cs'        (* IS NOT DISTINCT FROM conditions only *)
+      | KMagicJoin SubScalar => Psk (QNlJoin (PJ JLeft) true) cs'
+      end
+  end.
+
+Definition jk_of_n (k : nkind) : pjk :=
+  match k with NInner => PJ JInner | NLeft => PJ JLeft | NRight => PJ JRight | NSemi => PJ JSemi | NMark => PJMark end.
+Definition jk_of_h (k : hkind) : pjk :=
+  match k with HInner => PJ JInner | HLeft => PJ JLeft | HRight => PJ JRight | HSemi => PJ JSemi | HMark => PJMark end.
+
+(* the skeleton of a physical plan (no joins for subquery expressions: those stay expressions in `pplan`) *)
+Section PSkel.
+  Variable sch : list nat.
+  Fixpoint pplan_arity (p : pplan) : option nat :=
+    match p with
+    | XScan t => nth_error sch t
+    | XSingleRow => Some 0
+    | XExprList rows => match rows with [] => None | r :: _ => Some (length r) end
+    | XFilter _ c | XProjectAll c | XDistinct c | XSort _ c | XLimit _ _ c | XMaterialize c => pplan_arity c
+    | XProject es _ => Some (length es)
+    | XNlJoin k cond la ra l r =>
+        match cond with
+        | NCNone => match pplan_arity l, pplan_arity r with Some a, Some b => Some (a + b) | _, _ => None end
+        | _ => Some (match k with NSemi => la | _ => la + ra end)
+        end
+    | XHashJoin k _ la ra _ _ => Some (match k with HSemi => la | _ => la + ra end)
+    | XHashAggregate keys aggs _ => Some (length keys + length aggs)
+    | XUngroupedAggregate aggs _ => Some (length aggs)
+    | XUnion l _ => pplan_arity l
+    | XUnsupported => None
+    end.
+
+  Fixpoint pskel (p : pplan) : psk :=
+    match p with
+    | XScan t => Psk (QScan t) []
+    | XSingleRow => Psk QSingleRow []
+    | XExprList rows => Psk (QExprList (length rows)) [Psk QSingleRow []]
+    | XFilter _ c => Psk QFilter [pskel c]
+    | XProject es c => Psk (QProject (Some (length es))) [pskel c]
+    | XProjectAll c => Psk (QProject (pplan_arity c)) [pskel c]
+    | XNlJoin k cond _ _ l r =>
+        Psk (QNlJoin (jk_of_n k) (match cond with NCNone => false | NCWhole _ => true | NCConds cs => negb (is_nil cs) end))
+            [pskel l; pskel r]
+    | XHashJoin k conds _ _ l r => Psk (QHashJoin (jk_of_h k) (length conds)) [pskel l; pskel r]
+    | XHashAggregate keys aggs c =>
+        Psk (QHashAggregate (length keys) (length aggs)) [Psk (QProject (Some (length keys + length aggs))) [pskel c]]
+    | XUngroupedAggregate aggs c =>
+        Psk (QUngroupedAggregate (length aggs)) [Psk (QProject (Some (length aggs))) [pskel c]]
+    | XDistinct c => Psk QHashDistinct [pskel c]
+    | XUnion l r => Psk QUnionOp [pskel l; pskel r]
+    | XSort keys c => Psk (QSort (length keys)) [pskel c]
+    | XLimit lim off c => Psk (QLimit (Some lim) off) [pskel c]
+    | XMaterialize c => Psk QMaterialize [pskel c]
+    | XUnsupported => Psk QUnsupported []
+    end.
+End PSkel.
+
+(* plans whose expressions contain no subquery (then `pskel sch (phys_of l) = phys_sk (lskel sch l)`
+   up to PUnsupported, checked at run time by the driver) *)
+Fixpoint psk_eqb (a b : psk) : bool :=
+  match a, b with
+  | Psk oa ca, Psk ob cb =>
+      (match oa, ob with
+       | QScan x, QScan y => Nat.eqb x y
+       | QSingleRow, QSingleRow | QFilter, QFilter | QHashDistinct, QHashDistinct | QUnionOp, QUnionOp
+       | QMaterialize, QMaterialize | QUnsupported, QUnsupported => true
+       | QExprList x, QExprList y => Nat.eqb x y
+       | QProject x, QProject y => match x, y with Some u, Some v => Nat.eqb u v | None, None => true | _, _ => false end
+       | QNlJoin k f, QNlJoin k' f' =>
+           Bool.eqb f f' && match k, k' with
+                            | PJMark, PJMark => true
+                            | PJ u, PJ v => match u, v with
+                                            | JCross, JCross | JInner, JInner | JLeft, JLeft | JRight, JRight
+                                            | JSemi, JSemi | JAnti, JAnti | JCross, JInner | JInner, JCross => true
+                                            | _, _ => false end
+                            | _, _ => false end
+       | QHashJoin k n, QHashJoin k' n' =>
+           Nat.eqb n n' && match k, k' with
+                           | PJMark, PJMark => true
+                           | PJ u, PJ v => match u, v with
+                                           | JCross, JCross | JInner, JInner | JLeft, JLeft | JRight, JRight
+                                           | JSemi, JSemi | JAnti, JAnti | JCross, JInner | JInner, JCross => true
+                                           | _, _ => false end
+                           | _, _ => false end
+       | QHashAggregate a1 b1, QHashAggregate a2 b2 => Nat.eqb a1 a2 && Nat.eqb b1 b2
+       | QUngroupedAggregate a1, QUngroupedAggregate a2 => Nat.eqb a1 a2
+       | QSort a1, QSort a2 => Nat.eqb a1 a2
+       | QLimit l1 o1, QLimit l2 o2 =>
+           Nat.eqb o1 o2 && match l1, l2 with Some u, Some v => Nat.eqb u v | None, None => true | _, _ => false end
+       | _, _ => false
+       end)
+      && (fix go (x y : list psk) : bool :=
+            match x, y with
+            | [], [] => true
+            | u :: x', v :: y' => psk_eqb u v && go x' y'
+            | _, _ => false
+            end) ca cb
+  end.
+
+(* no LIMIT inside (a LIMIT over an unordered or tied input may pick any rows: only its position at the top of
+   the statement is covered by the composition theorem) *)
+Fixpoint no_limit (p : lplan) : bool :=
+  match p with
+  | LScan _ | LSingleRow | LExprList _ => true
+  | LFilter _ c | LProject _ c | LProjectAll c | LAggregate _ _ c | LDistinct c | LOrder _ c
+  | LMaterializationScan c => no_limit c
+  | LCrossJoin l r | LArbitraryJoin _ _ _ _ l r | LComparisonJoin _ _ _ _ l r | LDependentJoin _ _ _ l r
+  | LSetop _ l r => no_limit l && no_limit r
+  | LLimit _ _ _ => false
+  end.
